@@ -27,6 +27,7 @@ import (
 
 	"github.com/anishathalye/porcupine"
 	"github.com/d5/tengo/v2"
+	"github.com/d5/tengo/v2/stdlib"
 	"verif/engine/deep"
 	"verif/engine/gen"
 	"verif/engine/report"
@@ -346,7 +347,9 @@ func sharedCase(c Case) (fails []string, obs string) {
 	prog := sharedProgram(c)
 	src := tg.Print(prog)
 	s := tengo.NewScript([]byte(src.Main.Src))
-	s.SetImports(src.ModMap)
+	mm := stdlib.GetModuleMap("math", "text")
+	mm.AddMap(src.ModMap)
+	s.SetImports(mm)
 	for _, n := range prog.Inputs {
 		_ = s.Add(n, true)
 	}
